@@ -14,13 +14,41 @@
 //go:build verif
 // +build verif
 
-// Assumed contracts for the B-tree (checked by nothing here: the B-tree's node algorithms are the trusted base of
-// the key index; comment-only file). Abstract view: bthas[t][x] -- item x (the pointer stored in the Item
-// interface) is in tree t.
+// Assumed contracts for the B-tree (trusted base: the node algorithms of this package are NOT verified; comment-only
+// file). Abstract view: bthas[t][x] -- item x (the pointer stored in the Item interface) is in tree t; btlen[t] --
+// the number of items. The tree orders its items by the key function `btkey` declared by the user package (for the
+// region index: the position of the region's start key); two items with the same key are the same element.
+// The ordered visits AscendGreaterOrEqual / DescendLessOrEqual are modelled inside the verifier (btreemodel.go).
 package btree
 
 //@ func New
 //@   assumed
-//@   ensures result != nil && !old(allocated(result)) && allocated(result)
+//@   ensures result != nil && !old(allocated(result)) && allocated(result) && btlen[result] == 0
 //@   ensures forall x :: {bthas[result][x]} !bthas[result][x]
+//@   modifies ghost btlen
+
+// ReplaceOrInsert: an element with the same key is replaced (and returned), otherwise the item is added.
+//@ func (*BTree).ReplaceOrInsert
+//@   assumed
+//@   requires item != nil
+//@   ensures [replaced] result != nil ==> typeisptr(result, core.regionItem) && old(bthas[t][asptr(result, core.regionItem)]) && btkey(asptr(result, core.regionItem)) == btkey(asptr(item, core.regionItem))
+//@   ensures [was-absent] result == nil ==> (forall y *core.regionItem :: {old(bthas[t][y])} old(bthas[t][y]) ==> btkey(y) != btkey(asptr(item, core.regionItem)))
+//@   ensures [set] forall y *core.regionItem :: {bthas[t][y]} bthas[t][y] == (y == asptr(item, core.regionItem) || (old(bthas[t][y]) && (result == nil || y != asptr(result, core.regionItem))))
+//@   ensures [len] btlen[t] == old(btlen[t]) + ite(result == nil, 1, 0)
+//@   modifies ghost bthas[t], ghost btlen[t]
+
+// Delete: the element with the key of the argument is removed (and returned), if there is one.
+//@ func (*BTree).Delete
+//@   assumed
+//@   requires item != nil
+//@   ensures [removed] result != nil ==> typeisptr(result, core.regionItem) && old(bthas[t][asptr(result, core.regionItem)]) && btkey(asptr(result, core.regionItem)) == btkey(asptr(item, core.regionItem))
+//@   ensures [was-absent] result == nil ==> (forall y *core.regionItem :: {old(bthas[t][y])} old(bthas[t][y]) ==> btkey(y) != btkey(asptr(item, core.regionItem)))
+//@   ensures [set] forall y *core.regionItem :: {bthas[t][y]} bthas[t][y] == (old(bthas[t][y]) && (result == nil || y != asptr(result, core.regionItem)))
+//@   ensures [len] btlen[t] == old(btlen[t]) - ite(result == nil, 0, 1)
+//@   modifies ghost bthas[t], ghost btlen[t]
+
+//@ func (*BTree).Len
+//@   assumed
+//@   ensures result == btlen[t] && result >= 0
+//@   ensures [empty] result == 0 ==> (forall x *core.regionItem :: {bthas[t][x]} !bthas[t][x])
 //@   modifies nothing
